@@ -1,5 +1,7 @@
 /* Native replay driver for C17: lha_crc16_buf (real /repo code) against the bitwise CRC-16/ARC
-   definition, whole and split.  usage: drv_crc <state-hex> <bytes-hex> [split]   exit 1 = mismatch */
+   definition, whole and split.  usage: drv_crc <state-hex> <bytes-hex> [split]   exit 1 = mismatch
+   alias mode: drv_crc alias <bytes-hex> <offset>: the crc variable is the 16-bit field at <offset> INSIDE the buffer;
+   the value left there must be the reference fold (from the field's old value) over the bytes as passed in. */
 #include <stdio.h>
 #include <stdlib.h>
 #include <string.h>
@@ -9,6 +11,16 @@ static uint16_t ref(uint16_t c, uint8_t b){int k;c^=b;for(k=0;k<8;k++)c=(c&1)?(u
 int main(int argc,char**argv){
 	uint8_t buf[4096]; size_t n=0,i,split; uint16_t c0,c,r,p;
 	if(argc<3)return 2;
+	if(!strcmp(argv[1],"alias")){
+		size_t off; uint16_t f;
+		if(argc<4)return 2;
+		for(i=0;argv[2][i]&&argv[2][i+1]&&n<sizeof buf;i+=2){unsigned v;sscanf(argv[2]+i,"%2x",&v);buf[n++]=(uint8_t)v;}
+		off=strtoul(argv[3],0,10); if(off+2>n)return 2;
+		memcpy(&f,buf+off,2); r=f; for(i=0;i<n;i++)r=ref(r,buf[i]);
+		lha_crc16_buf((uint16_t*)(void*)(buf+off),buf,n); memcpy(&f,buf+off,2);
+		printf("alias n=%zu offset=%zu reference=%04x in-place=%04x\n",n,off,r,f);
+		return f==r?0:1;
+	}
 	c0=(uint16_t)strtoul(argv[1],0,16);
 	for(i=0;argv[2][i]&&argv[2][i+1]&&n<sizeof buf;i+=2){unsigned v;sscanf(argv[2]+i,"%2x",&v);buf[n++]=(uint8_t)v;}
 	split=argc>3?strtoul(argv[3],0,10):0; if(split>n)split=n;
